@@ -16,6 +16,11 @@ def layouts(tier):
     for name in ("no_list_2", "no_list_3"):
         o = D.fixture("aidon", name)
         out.append((name + " single phase", D.drop_phases(o, CR.split_frame(o)[1], "aidon")))
+    # the APDU header may carry a date-time (tagged or untagged) instead of null-data: frame and bare body must still agree
+    from checks.c10 import with_apdu_clock
+    for name in ("no_list_1", "no_list_3"):
+        for tagged in (True, False):
+            out.append((f"{name} with {'a tagged' if tagged else 'an untagged'} APDU date-time", with_apdu_clock(D.fixture("aidon", name), tagged)))
     return out
 
 
